@@ -116,9 +116,15 @@ def check(ctx):
                 open(src, "wb").write(data)
                 arch = os.path.join(d, "data.bin.zst")
                 if c["archive"] != "missing":
-                    rc0, _ = runcli(cli, ["compress", src, arch, "--level", "1"], d)
+                    rc0, err0 = runcli(cli, ["compress", src, arch, "--level", "1"], d)
                     if rc0 != 0:
-                        raise ToolError("cannot prepare an archive")
+                        # compressing an existing file at an implemented level must succeed: this is itself the property
+                        nbad += 1
+                        if nbad <= 10:
+                            ctx.violation("cli scenario %s: compress --level 1 of the %s original fails (exit %d%s)" % (json.dumps({k: v for k, v in c.items() if k != "expect"}), c["content"], rc0,
+                                          ", panic" if ("panicked at" in err0 or rc0 == 101) else ""), {"scenario": c, "problems": ["compress failed while preparing the archive", err0[-300:]]}, tag="cli")
+                        shutil.rmtree(d, ignore_errors=True)
+                        continue
                     raw = open(arch, "rb").read()
                     if c["archive"] == "truncated":
                         open(arch, "wb").write(raw[: max(1, len(raw) - rnd.randrange(1, min(len(raw), 40)))])
